@@ -130,6 +130,10 @@ type Exec struct {
 	initTemplate  map[*ssa.Global]Value // contents of globals after package initialisation
 	initHash      uint64
 	skipped       bool
+	// ConcreteTrace: assertion outcomes and witnesses of the current path in concrete mode
+	ConcreteTrace []string
+	FirstTrace    []string
+	completed     bool
 	schedPos      int
 	known         map[int]*Term
 	simpMemo      map[int]*Term
@@ -260,6 +264,8 @@ func (ex *Exec) runOnePath() {
 	ex.globals = map[*ssa.Global]*Value{}
 	ex.externGlobals = map[*ssa.Global]Value{}
 	ex.pc = nil
+	ex.completed = false
+	ex.ConcreteTrace = nil
 	ex.schedPos = 0
 	ex.known = nil
 	ex.simpMemo = nil
@@ -313,6 +319,7 @@ func (ex *Exec) runOnePath() {
 			ex.Stats.InitInstrs = ex.instrs
 		}
 		ex.callFunction(nil, ex.cfg.Entry, nil, nil)
+		ex.completed = true
 		// entry returned: let remaining tasks run to quiescence so their
 		// obligations are checked too.
 		ex.settle()
@@ -329,9 +336,18 @@ func (ex *Exec) runOnePath() {
 		}
 	}
 	ex.Stats.Instrs += ex.instrs
-	if len(ex.Stats.Samples) < 3 && ex.aborted == "" && !ex.skipped {
+	if ex.FirstTrace == nil && ex.cfg.FixedInputs != nil {
+		ex.FirstTrace = append([]string{}, ex.ConcreteTrace...)
+	}
+	if len(ex.Stats.Samples) < 3 && ex.aborted == "" && !ex.skipped && ex.completed {
 		if m := ex.modelFor(nil); m != nil {
-			ex.Stats.Samples = append(ex.Stats.Samples, map[string]interface{}{"harness": ex.harnessName, "path": ex.Stats.Paths, "inputs": m, "decisions": ex.decisionList()})
+			var sched []int
+			for i := 0; i < ex.dpos && i < len(ex.decisions); i++ {
+				if isSchedKind(ex.decisions[i].kind) {
+					sched = append(sched, ex.decisions[i].taken)
+				}
+			}
+			ex.Stats.Samples = append(ex.Stats.Samples, map[string]interface{}{"harness": ex.harnessName, "path": ex.Stats.Paths, "inputs": m, "decisions": ex.decisionList(), "sched": sched})
 		}
 	}
 }
@@ -874,7 +890,7 @@ func (ex *Exec) Merge(o *Exec) {
 		ex.inconclusive("%s", m)
 	}
 	for _, s := range b.Samples {
-		if len(a.Samples) < 3 {
+		if len(a.Samples) < 6 {
 			a.Samples = append(a.Samples, s)
 		}
 	}
